@@ -217,7 +217,7 @@ func (api *API) mapEncodeStructFields(
 
 		switch {
 		case sField.settings.ts.fieldKey != nil:
-			obj.Set(*sField.settings.ts.fieldKey, eleOut)
+			err = setUniqueKey(obj, *sField.settings.ts.fieldKey, eleOut)
 		case sField.settings.inlined:
 			castedEleOut, ok := eleOut.(*orderedmap.OrderedMap)
 			if !ok {
@@ -225,12 +225,29 @@ func (api *API) mapEncodeStructFields(
 			}
 
 			for _, k := range castedEleOut.Keys() {
-				obj.Set(k, lo.Return1(castedEleOut.Get(k)))
+				if err = setUniqueKey(obj, k, lo.Return1(castedEleOut.Get(k))); err != nil {
+					break
+				}
 			}
 		default:
-			obj.Set(FieldKeyString(sField.name), eleOut)
+			err = setUniqueKey(obj, FieldKeyString(sField.name), eleOut)
+		}
+		if err != nil {
+			return ierrors.Wrapf(err, "failed to serialize struct field %s", sField.name)
 		}
 	}
+
+	return nil
+}
+
+// setUniqueKey sets the key of the map form of a struct. A key that is taken already (by the type code of the struct,
+// by another field or by a member of an inlined field) can't be used again: the earlier entry would be overwritten
+// silently and the result could not be decoded.
+func setUniqueKey(obj *orderedmap.OrderedMap, key string, value any) error {
+	if _, exists := obj.Get(key); exists {
+		return ierrors.Errorf("key %q is used more than once in the map form of the struct", key)
+	}
+	obj.Set(key, value)
 
 	return nil
 }
